@@ -75,7 +75,7 @@ CLAIMED = {
             "every run and must decode the same packets as the reference parser minus control-bit ones; the released gogo-protobuf metadata decoder must accept "
             "emitted UTF-8 metadata; every emitted packet of a kind v0.0.17 does not know must carry the control bit; (c) a renumbering proxy interleaves unknown control packets "
             "(kinds 8-63, 1-2 frames; also one carrying the id of the NEXT stream right after a well-behaved rpc's half-close) into live streams and delivery, completeness, "
-            "error and no-hang oracles must still hold; the released UnmarshalError must obtain the handler's text and code from every emitted error packet; (b) every 4th chunk of runs feeds byte streams produced by the vendored v0.0.17 Writer/SplitN (ids up to 2^64-1) to the "
+            "error and no-hang oracles must still hold; the released UnmarshalError must obtain the handler's text and code from every emitted error packet; every finished client call must have put on the wire what lets a released server release its stream; (b) every 4th chunk of runs feeds byte streams produced by the vendored v0.0.17 Writer/SplitN (ids up to 2^64-1) to the "
             "current reader under the reader-chunk engine's differential/metamorphic oracles, and packets up to 3 MiB cut by the current SplitData/AppendFrame to the released reader. Full old-endpoint interop is not decided.",
             "DESIGN.md §8 C18, §9", "deterministic simulation; differential check against the released v0.0.17 codec; unknown-control-packet injection"),
 }
@@ -89,7 +89,7 @@ CLAIMED["C03"] = other("stream-model",
     "packets emitted (kind, control bit, payload, error payload layout), terminated/finished/context-done signals, and HandlePacket's connection-fatal verdict. Concurrent histories "
     "(2-3 callers + packet feeder, writes parked in a stalled transport) are checked against order-independent rules (idempotence, no send after termination, finished iff terminated and idle, "
     "no write in flight on a finished stream at ANY step, at most one transport write with message frames may begin on a terminated stream per call, valid frame stream, no second terminal packet, "
-    "nothing blocked for ever, context done only once finished, half-closed by both sides implies terminated). 30% of histories use ManualFlush (buffered sends; RawFlush, receives and terminal packets flush; a flush after send-close/termination fails and emits nothing).",
+    "nothing blocked for ever, context done only once finished, half-closed by both sides implies terminated, no receive waits for the write lock behind a MsgSend of its own stream). 30% of histories use ManualFlush (buffered sends; RawFlush, receives and terminal packets flush; a flush after send-close/termination fails and emits nothing).",
     "DESIGN.md §8 C03", "deterministic simulation + model-based testing against a reference state machine",
     "Trusted: the reference state machine in /verif/sim/e2_stream.go; testing/synctest; simsync; sampled histories (all histories of length <= 3 are reached with high probability in the thorough tier, not enumerated).")
 CLAIMED["C09"] = other("reader-chunk",
@@ -110,7 +110,7 @@ CLAIMED["C15"] = other("pool-sim",
 CLAIMED["C16"] = other("mux-sim",
     "Real drpcmigrate.ListenMux (prefix length 1-8, routes registered before/while running) over a simulated base listener; 2-6 dialers with registered / unregistered / too-short prefixes writing in arbitrary splits, some through "
     "HeaderConn with 1-3 concurrent writers, some waiting for a one-byte answer before they close; acceptors per listener (some listeners have none); route Close followed by a second Route of the same prefix, context cancel and base-listener failure at scheduler-chosen instants. Oracles at quiescence: each accepted connection is returned by exactly one Accept "
-    "(its route, else default) or closed or still waiting for its prefix; routed bytes = client bytes minus prefix, default bytes unmodified and available as they arrive; a prefix registered again with a fresh listener is honoured; a connection parked at a listener nobody accepts on holds up nothing; header exactly once and first on the wire with correct write counts and, with one writer, followed byte for byte by the caller's own payload; after stop no Accept blocks, Run returns and all goroutines exit.",
+    "(its route, else default) or closed or still waiting for its prefix; routed bytes = client bytes minus prefix, default bytes unmodified and available as they arrive; a prefix registered again with a fresh listener is honoured; a connection parked at a listener nobody accepts on holds up nothing; header exactly once and first on the wire with correct write counts and, with one writer, followed byte for byte by the caller's own payload; after stop no Accept blocks (also on a route asked for after Run returned), Run returns and all goroutines exit; every connection the base Accept returned is delivered or closed even while stopping.",
     "DESIGN.md §8 C16", "deterministic simulation with seeded schedules over a simulated listener/connection seam; routing and transparency oracles",
     "Trusted: simnet listener/conn honouring the net contracts (closing a listener resets un-accepted connections); deterministic map iteration patch in the private runtime copy; sampled programs and schedules.")
 CLAIMED["C19"] = other("signal-sim",
